@@ -293,6 +293,9 @@ fn run_attrs(out: &mut Out, tier: &str) {
         json!({"k": "rename", "v": "user_id"}),           // the field's own identifier (a no-op only without rename_all)
         json!({"k": "rename", "v": "created_at_utc"}),
         json!({"k": "rename", "v": "HelloWorld"}),
+        json!({"k": "rename", "v": "name,asc"}),
+        json!({"k": "rename", "v": "lat, lon"}),
+        json!({"k": "rename", "v": "a = \"b\", c"}),
         json!({"k": "skip"}),
         json!({"k": "skip_serializing_if", "v": "Option::is_none"}),
         json!({"k": "default"}),
